@@ -199,6 +199,32 @@ def rule_kb6(repo, col):
                "the smart-constraint encoding must add, for every literal b of the constraint, the clauses [-ct(|b|), ind] and [pt(|b|), ind] (the constraint is enforced as soon as one of its "
                "atoms is decided either way); found %s - with one of them missing a proof that only sets choices to false escapes the annotated-disjunction constraint and is counted "
                "with too large a probability" % app, construct="smart constraint: indicator activation", function="CNF._contents")
+    # the indicator is a variable nobody else uses: the atom counter is advanced BEFORE its value is taken
+    head = [st for st in blocks[0].body[:blocks[0].body.index(loops[0])]]
+    env_ind = None
+    for st in head:
+        if isinstance(st, ast.Assign) and norm(st.targets[0]) == "ind":
+            env_ind = st
+    if env_ind is None:
+        raise AnalysisError("CNF._contents: the indicator variable `ind` is not allocated before the literal loop")
+    from ..astutil import const_value
+    # fold: with atomcount = 7 before the branch, ind must be 8 and atomcount 8 afterwards
+    val = {"atomcount": 7}
+    for st in head:
+        if isinstance(st, ast.AugAssign) and isinstance(st.target, ast.Name):
+            okf, v = const_value(ast.BinOp(left=ast.Name(id=st.target.id, ctx=ast.Load()), op=st.op, right=st.value), val)
+            if okf:
+                val[st.target.id] = v
+        elif isinstance(st, ast.Assign) and isinstance(st.targets[0], ast.Name):
+            okf, v = const_value(st.value, val)
+            if okf:
+                val[st.targets[0].id] = v
+    if "ind" not in val:
+        raise AnalysisError("CNF._contents: indicator allocation not foldable")
+    col.decide("KB6", m, env_ind, val["ind"] == 8 and val.get("atomcount") == 8, "the indicator of a smart constraint is a fresh variable (atom counter advanced first)",
+               "with 7 variables in use the indicator of a smart constraint gets the number %s and the counter becomes %s: the indicator must be the fresh variable 8 (counter advanced before "
+               "its value is taken) - otherwise it aliases the last variable of the encoding, usually ct(query), and the border formula loses its proofs" % (val["ind"], val.get("atomcount")),
+               construct="smart constraint: indicator variable allocation", function="CNF._contents")
     tail = [norm(c.args[0]).replace(" ", "") for st in blocks[0].body if not isinstance(st, ast.For) for c in ast.walk(st) if isinstance(c, ast.Call) and norm(c.func) == "clauses.append" and c.args]
     ok2 = "w_max+v+[-ind]" in tail and "w_max+list(map(cpt,body))+[-ind]" in tail and len(tail) == 2
     col.decide("KB6", m, blocks[0], ok2, "an active indicator enforces the constraint; an inactive one requires all atoms undecided",
